@@ -21,6 +21,10 @@ class Flt (α : Type) where
   mulAddMul : α → α → α → α → α
   min : α → α → α
   max : α → α → α
+  /-- `a.approx_eq_ulps(&b, 4)` (float-cmp): equal, or same sign and at most 4 representable values apart -/
+  approxEq4 : α → α → Bool
+  /-- `f32::EPSILON` = 2⁻²³ -/
+  eps : α
 
 namespace Flt
 instance instFloat32 : Flt Float32 where
@@ -37,6 +41,14 @@ instance instFloat32 : Flt Float32 where
   -- Rust f32::min / f32::max (NaN-ignoring); inputs here are never NaN
   min a b := if b < a then b else a
   max a b := if a < b then b else a
+  approxEq4 a b :=
+    if a == b then true
+    else if (a < 0) != (b < 0) then false
+    else
+      let x := a.toBits.toNat
+      let y := b.toBits.toNat
+      (if x ≤ y then y - x else x - y) ≤ 4
+  eps := Float32.ofBits 0x34000000
 
 instance instRat : Flt Rat where
   add a b := a + b
@@ -51,6 +63,9 @@ instance instRat : Flt Rat where
   mulAddMul a b c d := a * b + c * d
   min a b := if b < a then b else a
   max a b := if a < b then b else a
+  -- exact arithmetic has no representable neighbours: "approximately equal" is equality
+  approxEq4 a b := decide (a = b)
+  eps := 1 / 8388608
 
 @[simp] theorem rat_add (a b : Rat) : Flt.add a b = a + b := rfl
 @[simp] theorem rat_sub (a b : Rat) : Flt.sub a b = a - b := rfl
@@ -64,6 +79,8 @@ instance instRat : Flt Rat where
 @[simp] theorem rat_mulAddMul (a b c d : Rat) : Flt.mulAddMul a b c d = a * b + c * d := rfl
 @[simp] theorem rat_min (a b : Rat) : Flt.min a b = if b < a then b else a := rfl
 @[simp] theorem rat_max (a b : Rat) : Flt.max a b = if a < b then b else a := rfl
+@[simp] theorem rat_approxEq4 (a b : Rat) : Flt.approxEq4 a b = decide (a = b) := rfl
+@[simp] theorem rat_eps : (Flt.eps : Rat) = 1 / 8388608 := rfl
 end Flt
 
 end Resvg
